@@ -308,6 +308,13 @@ func c11Case(i int, raw []byte) Result {
 		} else {
 			e = c11Opt(tabula.Open(path).Pages(p+1), c.Opt)
 		}
+		if (i+p)%3 == 0 {
+			// the same one page, spelled again and again (as many entries as the document has pages, and more): which pages
+			// the running texts are looked for on does not depend on how the selection is spelled
+			for k := 0; k < len(c.Doc); k++ {
+				e = e.PageRange(p+1, p+1).Pages(p + 1)
+			}
+		}
 		filt, _, err := e.Text()
 		r.Evals += 2
 		if err != nil {
